@@ -255,6 +255,62 @@ func c17Case(rep *report.Report, sc *idxScenario, ops []explore.Op, st *explore.
 		}
 	}
 	rep.Outcome("restore-verified")
+	if !fullSuccessors {
+		return
+	}
+	// ---- several snapshot/restore cycles on the SAME database handle: A --cont--> B, snapshot S2 of B,
+	// --cont--> C, restore S1 (must be A again, id1), restore S2 (must be B, id2), each time with fresh
+	// markers, listeners and timeline bookkeeping
+	_, _ = explore.RunProgram(db, explore.OrdinaryContext(), ops, cont, true, nil)
+	imageB := snap()
+	snap2Path, snapId2, err := db.Snapshot(dir + "/snap2.db")
+	if err != nil {
+		rep.Violation(sig("second-snapshot-error"), label+": second Snapshot failed: "+err.Error(), replay)
+		return
+	}
+	data2, err := os.ReadFile(snap2Path)
+	if err != nil {
+		panic(err)
+	}
+	_ = os.Remove(snap2Path)
+	if snapId2 == snapId {
+		rep.Violation(sig("snapshot-id-reused"), label+": the second snapshot got the id of the first one: "+snapId2, replay)
+	}
+	_, _ = explore.RunProgram(db, explore.OrdinaryContext(), ops, cont, true, nil)
+	for round, rs := range []struct {
+		name  string
+		data  []byte
+		id    string
+		image *dump.Tree
+	}{{"first snapshot again", data, snapId, imageA}, {"second snapshot", data2, snapId2, imageB}} {
+		if id, err := db.GetSnapshotId(); err == nil && id != nil {
+			_ = id // reading the id between restores must not pin it
+		}
+		db.RestoreSnapshot(rs.data)
+		if !lockFree("RestoreSnapshot") {
+			return
+		}
+		rep.Count("transitions", 1)
+		got := snap()
+		if g, w := stripMeta(got), stripMeta(rs.image); !g.Equal(w) {
+			rep.Violation(sig("multi-cycle-content"), label+": after restoring the "+rs.name+" on the same handle the database differs from that snapshot's state:\n"+dump.Diff(w, g), replay)
+			return
+		}
+		if id, err := db.GetSnapshotId(); err != nil || id == nil || *id != rs.id {
+			rep.Violation(sig("multi-cycle-snapshot-id"), label+fmt.Sprintf(": after restoring the %s GetSnapshotId() = %v, %v; that snapshot's id is %s", rs.name, derefS(id), err, rs.id), replay)
+		}
+		if a, b := atomic.LoadInt64(&l1), atomic.LoadInt64(&l2); a != int64(round+2) || b != int64(round+2) {
+			rep.Violation(sig("multi-cycle-listeners"), label+fmt.Sprintf(": after %d restores the listeners ran %d and %d times", round+2, a, b), replay)
+		}
+		calls := 0
+		idF := func() (string, error) { calls++; return fmt.Sprintf("timeline-r%d-%d", round, calls), nil }
+		t1, err1 := db.GetTimelineId(boltz.TimelineModeDefault, idF)
+		t2, err2 := db.GetTimelineId(boltz.TimelineModeDefault, idF)
+		if err1 != nil || err2 != nil || t1 != fmt.Sprintf("timeline-r%d-1", round) || t2 != t1 || calls != 1 {
+			rep.Violation(sig("multi-cycle-timeline"), label+fmt.Sprintf(": after restoring the %s GetTimelineId gave %q,%v then %q,%v with %d id-function calls; expected a fresh id exactly once", rs.name, t1, err1, t2, err2, calls), replay)
+		}
+	}
+	rep.Outcome("multi-cycle-verified")
 }
 
 // c17Timeline: every mode x reset marker x stored id x id function outcome.
